@@ -13,11 +13,11 @@ CHECKS = {
    note="Trusted: corpus/mutators in h/c07; a panic whose innermost repository frame lies under /repo is the violation; watchdog expiry is inconclusive."),
  "C09": dict(level="exploration", ref="DESIGN.md §3 C09",
    technique="runtime reference-model monitor: every inbound packet of a full cross product is attributed by unique payload to the socket that received it and compared with an independent specificity matcher; TCP SYNs judged by SYN-ACK / reset counting; racing phase under the race detector with logically stamped open/close/inject events",
-   text="PRNG-built sets of up to 10 UDP/TCP sockets (wildcard, specific, interface-bound, address+interface, connected with/without interface, listeners) on two interfaces with open/close and address removal, then all (interface x destination x port x source x source port) packets are injected and every socket is read after each one. Racing phase: sockets are opened, drained and closed by two goroutines while a third injects uniquely numbered datagrams; at-most-once, right-address and not-after-close are judged from logical stamps, race reports in stack/, udp/, ports/ are violations.",
+   text="PRNG-built sets of up to 10 UDP/TCP sockets (wildcard, specific, interface-bound, address+interface, connected with/without interface, listeners) on two interfaces with open/close and address removal, then all (interface x destination x port x source x source port) packets are injected and every socket is read after each one; a socket whose bind fails in its commit step while a datagram for that port arrives must own nothing afterwards; a full connection through a listener whose SYN arrives twice back to back must receive its handshake ACK and (70 virtual seconds later) its data. Racing phase: sockets are opened, drained and closed by two goroutines while a third injects uniquely numbered datagrams; at-most-once, right-address and not-after-close are judged from logical stamps, race reports in stack/, udp/, ports/ are violations.",
    note="Trusted: the reference matcher in h/c09. Known finding: a removed address stays served while a connected socket references it."),
  "C11": dict(level="exploration", ref="DESIGN.md §3 C11",
    technique="runtime monitor with self-identifying datagrams (sender, counter, length, pattern): Read results checked for integrity, arrival order, at-most-once and true sender; every successful Write paired with exactly one emitted packet decoded by the independent codec; concurrent readers under the race detector",
-   text="1-8 senders over IPv4, IPv6 and v4-on-dual-stack, lengths 12..65507 incl. datagrams delivered as up to 25 fragments, sockets bound/specific/IPv6/dual-stack/connected, lagging readers (buffer pressure), read-side shutdown and reconnect; writes of 0..66000 bytes on unbound/bound/connected/sendto sockets.",
+   text="1-8 senders over IPv4, IPv6 and v4-on-dual-stack, lengths 12..65507 incl. datagrams delivered as up to 25 fragments and pairs of datagrams from two senders with one IP identification whose fragments arrive interleaved, sockets bound/specific/IPv6/dual-stack/connected, lagging readers (buffer pressure), read-side shutdown and reconnect; writes of 0..66000 bytes on unbound/bound/connected/sendto sockets.",
    note="Trusted: payload code and h/rfc. UDP delivery is synchronous, so no virtual time is needed."),
  "C12": dict(level="exploration", ref="DESIGN.md §3 C12",
    technique="scripted neighbour against a real stack on a resolution-required harness link in virtual time: ARP/NDP replies decoded by the independent codec, a reference neighbour table, and the exact virtual-time schedule of resolution requests",
@@ -33,8 +33,8 @@ CHECKS = {
    note="Trusted: independent HTTP/RFC 6455 parsing in h/c20. The bundled server's late waiter registration (schedule-dependent) is avoided by a 10 ms virtual pause."),
 
  "C01": dict(level="exploration", ref="DESIGN.md §3 C01",
-   technique="runtime monitor at the API boundary with position-coded payloads over two real stacks joined by an adversarial wire (drop/duplicate/delay/reorder/replay), bulk in virtual time (testing/synctest), subset in real time under the race detector",
-   text="Every byte returned by Read is compared with the byte written at that stream offset and must lie below the bytes offered to Write so far; scenarios vary IP version, SACK, congestion controller, MTU, buffers, chunking, reader pacing, fault mix and ISS placement (streams crossing 2^31/2^32 are counted from the wire). Exploration: the schedule of goroutines is not pinned; hundreds (quick) to tens of thousands (thorough) of scenarios.",
+   technique="runtime monitor at the API boundary with position-coded payloads over two real stacks joined by an adversarial wire (drop/duplicate/delay/reorder/replay) and over one stack driven by a scripted raw peer, bulk in virtual time (testing/synctest), subset in real time under the race detector",
+   text="Every byte returned by Read is compared with the byte written at that stream offset and must lie below the bytes offered to Write so far; scenarios vary IP version, SACK, congestion controller, MTU, buffers, chunking, reader pacing, fault mix and ISS placement (streams crossing 2^31/2^32 are counted from the wire). A scripted phase plays relative scripts (overlapping / out-of-order peer data, ACKs ending inside segments or covering several, SACK, duplicate ACKs, waits for retransmissions) against one stack with wrap-adjacent sequence spaces and compares every byte read and every byte of every emitted data segment with the position-coded stream. Exploration: the schedule of goroutines is not pinned; hundreds (quick) to tens of thousands (thorough) of scenarios.",
    note="Trusted: the payload function and harness wire (h/tcpx, h/wire); Go's synctest for virtual time (go1.26.8); ISS steering through crypto/rand.Reader. Packets are never altered."),
  "C02": dict(level="fault_enumeration", ref="DESIGN.md §3 C02",
    technique="fault enumeration in virtual time: packet identities of each base exchange are enumerated from a fault-free run, then every class is dropped once/twice, pairs are dropped, ACKs/data are held back (reordering), plus random-fault scenarios; completion-or-explicit-error by a virtual deadline is the oracle",
@@ -42,7 +42,7 @@ CHECKS = {
    note="Trusted: virtual time (synctest), identity keys (direction, flags, relative seq, length / ack, window). 'Eventually' restated as 'by virtual T'. A half-open outcome (active side connected, passive side never accepted) is judged from handshake bookkeeping on the wire; more than two lost handshake packets is outside the fault bound and only counted. Known findings: no persist timer (window update lost, or overtaken by an older zero-window ACK)."),
  "C03": dict(level="exploration", ref="DESIGN.md §3 C03",
    technique="scripted raw peer (independent RFC codec) against one real stack in virtual time with quiescence after every injected segment; Accept/Connect results and emitted resets judged against the RFC 793 reset rule",
-   text="Thousands of handshake scripts (passive and active, normal / cookie / genuine-pressure mode, PRNG option sets, wrap-adjacent ISS, wrong acknowledgements at +-1, +-2, +-2^16, 2^31, 0, 2^32-1 and random, duplicate/other SYN, RST in and out of window, early data, cross-tuple ACKs) and strays with every flag combination; a connection may appear only after the exact acknowledgement, bad acknowledgements draw exactly one reset with that sequence number, strays draw exactly one RFC-shaped reset, resets are never answered.",
+   text="Thousands of handshake scripts (passive and active, normal / cookie / genuine-pressure mode, PRNG option sets, wrap-adjacent ISS, wrong acknowledgements at +-1, +-2, +-2^16, 2^31, 0, 2^32-1 and random, duplicate/other SYN, SYN bursts of 2-3 copies back to back, RST in and out of window, RST|ACK acknowledging the SYN-ACK, SYN combined with RST sent to the listening port, early data, cross-tuple ACKs) and strays with every flag combination; a connection may appear only after the exact acknowledgement, bad acknowledgements draw exactly one reset with that sequence number, strays draw exactly one RFC-shaped reset, resets are never answered.",
    note="Trusted: h/rfc for building/decoding segments, quiescence (synctest.Wait) for attributing replies. Known finding: cookie validation accepts near-miss ACKs."),
  "C04": dict(level="exploration", ref="DESIGN.md §3 C04",
    technique="online monitor over every segment a real stack emits to a scripted raw peer in virtual time: unwrapped right-edge/MSS/MTU bounds on the send side, monotone advertised edge, acceptance and deliverability on the receive side",
@@ -50,7 +50,7 @@ CHECKS = {
    note="Trusted: quiescence after every step makes 'sent so far' = 'processed so far'. Known findings: advertised edge retreats by < one scale unit (window field truncation); in cookie mode a peer MSS below 536 is rounded up to 536."),
  "C05": dict(level="exploration", ref="DESIGN.md §3 C05",
    technique="totally ordered virtual-time log of a real stack's emissions against a scripted raw peer; timing clauses decided on logical instants (no wall clock), window clauses by counting at every emission",
-   text="'silent' scripts check every timeout retransmission (right segment, >= 200 ms after its previous transmission, intervals at least doubling, one segment per expiry); 'fastrexmit' scripts lose each position of a flight and require the retransmission at the instant the third duplicate ACK is delivered; 'cwnd' scripts count distinct segments in flight against 10 + acknowledged + duplicate ACKs (Reno) and 10 before the first ACK.",
+   text="'silent' scripts check every timeout retransmission (right segment, >= 200 ms after its previous transmission, intervals at least doubling, one segment per expiry); 'fastrexmit' scripts lose each position of a flight and require the retransmission at the instant the third duplicate ACK is delivered, and half of them go on with 130 s of silence in which every timeout must send exactly one segment, the earliest unacknowledged one; 'cwnd' scripts count distinct segments in flight against 10 + acknowledged + duplicate ACKs (Reno) and 10 before the first ACK.",
    note="Trusted: virtual time makes 'same instant' exact; CUBIC is held only to the clauses not qualified 'default controller'."),
 
  "C08": dict(level="exploration", ref="DESIGN.md §3 C08",
@@ -75,7 +75,7 @@ CHECKS = {
    note="Trusted: reference set model, porcupine, goroutine-id attribution (callbacks run synchronously on the notifier)."),
  "C18": dict(level="exploration", ref="DESIGN.md §3 C18",
    technique="systematic schedule exploration of the real mutex at verif schedule points (controller runs one goroutine at a time; DFS over decision sequences with replay) + stress under the race detector with injected pre-emption, occupancy monitor, porcupine, state-based lost-wake-up verdict",
-   text="For small programs of Lock/TryLock/Unlock every interleaving at the granularity of the mutex's atomic operations is enumerated on the real code; a deadlock is 'no enabled goroutine' (logical), mutual exclusion is an occupancy counter, TryLock's clause is judged when no other step overlapped. Larger programs are sampled (capped DFS, random priorities) and stress-run under -race with seeded delays at the same points.",
+   text="For small programs of Lock/TryLock/Unlock every interleaving at the granularity of the mutex's atomic operations is enumerated on the real code; a deadlock is 'no enabled goroutine' (logical), mutual exclusion is an occupancy counter, TryLock's clause is judged when no other step overlapped, and a TryLock call that passes more than 8 schedule points (it has two) is judged to block. Larger programs are sampled (capped DFS, random priorities) and stress-run under -race with seeded delays at the same points.",
    note="Trusted: the controller's enabledness rule (receive enabled iff a token is queued), add-only hooks in pkg/tmutex. Load+Swap of Lock's re-check are one controlled step."),
  "C19": dict(level="exploration", ref="DESIGN.md §3 C19",
    technique="stress under the race detector with seeded delays at the algorithm's atomic operations; porcupine on recorded Assert/Clear/Fetch histories; state-based lost-wake-up verdict; hook monitor + plain-store canary for touches after Done; controlled mode: DFS over decision sequences at the 19 schedule points with simulated park/ready",
